@@ -62,6 +62,19 @@ struct SearchStats
     uint64_t tb_hits;
 };
 
+#ifdef CHESSPP_VERIF
+class Search;
+struct Info;
+// Verification hooks, compiled only with -DCHESSPP_VERIF (never by the CMake build).
+// kind: 0 = Search::search, 1 = Search::quiescence_search; point: schedule points of go()/iter_search()/stop().
+namespace verif
+{
+extern void (*on_node)(Search*, int kind, Info* info, int depth, Value alpha, Value beta);
+extern void (*on_exit)(Search*, int kind, Info* info, Value ret);
+extern void (*on_point)(Search*, int point);
+}  // namespace verif
+#endif
+
 class Search
 {
   public:
